@@ -1,44 +1,50 @@
 --------------------------- MODULE TreeExportGen ---------------------------
 (* C42 generator + design check: TLC enumerates every tree over the namespace
-       a, "sp ace", "é", ".hidden", deep/, deep/é, deep/nest/, deep/nest/f
+       a, "sp ace", "é", ".hidden", deep/, deep/"nest é", deep/nest/, deep/nest/f
    (each path absent / file / executable file / symlink / directory, children only below directories) and every option
    combination (root: None, "", "r/é s"; subdir: None, "", deep, deep/, deep/nest, deep/nest/f, a; per_file_timestamps),
    checks the algebra of Subtree / Prefix / Repr on all of them, and exports the trees and the options. *)
 EXTENDS TreeExport, TLC, Json, IOUtils, SequencesExt
-CONSTANT Tier          \* "quick": a sub-lattice of the per-path states; "thorough": all of them
+CONSTANT Tier          \* "quick" / "thorough": which sub-lattice of the per-path states is enumerated ("tiny": development)
 
-P == {<<"a">>, <<"sp ace">>, <<"é">>, <<".hidden">>, <<"deep">>, <<"deep", "é">>, <<"deep", "nest">>, <<"deep", "nest", "f">>}
-Order == <<<<"a">>, <<"sp ace">>, <<"é">>, <<".hidden">>, <<"deep">>, <<"deep", "é">>, <<"deep", "nest">>, <<"deep", "nest", "f">>>>
-Names == {"a", "sp ace", "é", ".hidden", "deep", "nest", "f"}
+Order == <<<<"a">>, <<"sp ace">>, <<"é">>, <<".hidden">>, <<"deep">>, <<"deep", "nest é">>, <<"deep", "nest">>, <<"deep", "nest", "f">>>>
+P == Range(Order)
+Names == {"a", "sp ace", "é", ".hidden", "deep", "nest", "nest é", "f"}
 States == {"absent", "file", "xfile", "symlink", "dir"}
-Allowed(p) ==
-    IF Tier = "thorough" THEN States
-    ELSE CASE p = <<"a">> -> States
-           [] p = <<"sp ace">> -> {"absent", "file", "dir"}
-           [] p = <<"é">> -> {"absent", "xfile", "symlink"}
-           [] p = <<".hidden">> -> {"absent", "file"}
-           [] p = <<"deep">> -> {"absent", "symlink", "dir"}
-           [] p = <<"deep", "é">> -> {"absent", "file", "dir"}
-           [] p = <<"deep", "nest">> -> {"absent", "xfile", "dir"}
-           [] p = <<"deep", "nest", "f">> -> States
-Shapes == {s \in [P -> States] : /\ \A p \in P : s[p] \in Allowed(p)
-                                 /\ \A p \in P : (Len(p) > 1 /\ s[p] # "absent") => s[Parent(p)] = "dir"}
+\* per-path states explored in each tier (index = position in Order)
+Allowed(i) ==
+    IF Tier = "thorough" THEN (CASE i \in {2, 6} -> {"absent", "file", "symlink", "dir"} [] i = 4 -> {"absent", "file", "xfile"}
+                                 [] OTHER -> States)
+    ELSE IF Tier = "tiny" THEN (IF i \in {1, 8} THEN {"absent", "file", "symlink"} ELSE IF i \in {2, 3, 4} THEN {"absent"} ELSE {"absent", "dir"})
+    ELSE CASE i = 1 -> States
+           [] i = 2 -> {"absent", "file", "dir"}
+           [] i = 3 -> {"absent", "xfile", "symlink"}
+           [] i = 4 -> {"absent", "file"}
+           [] i = 5 -> {"absent", "symlink", "dir"}
+           [] i = 6 -> {"absent", "file", "dir"}
+           [] i = 7 -> {"absent", "xfile", "dir"}
+           [] i = 8 -> States
+\* a shape is the tuple of the states of the 8 paths in Order; children exist only below directories
+Tops == Allowed(1) \X Allowed(2) \X Allowed(3) \X Allowed(4)
+Deeps == {<<d, "absent", "absent", "absent">> : d \in Allowed(5) \ {"dir"}}
+         \cup {<<"dir", y, z, "absent">> : y \in Allowed(6), z \in Allowed(7) \ {"dir"}}
+         \cup {<<"dir", y, "dir", w>> : y \in Allowed(6), w \in Allowed(8)}
+Shapes == {t \o d : t \in Tops, d \in Deeps}
 
 RECURSIVE Tok(_)
 Tok(p) == IF Len(p) = 1 THEN p[1] ELSE p[1] \o "/" \o Tok(Tail(p))
-Target(p) == CASE p = <<"a">> -> "sp ace" [] p = <<"sp ace">> -> "é" [] p = <<"é">> -> "sp ace/é"
-               [] p = <<".hidden">> -> "../outside é" [] p = <<"deep">> -> "a" [] p = <<"deep", "é">> -> "../é"
-               [] p = <<"deep", "nest">> -> "é" [] p = <<"deep", "nest", "f">> -> "../../sp ace"
+Toks == [i \in 1..8 |-> Tok(Order[i])]
+Targets == <<"sp ace", "é", "sp ace/é", "../outside é", "a", "../é", "é", "../../sp ace">>
 \* the exported revision (tip) changes exactly one file relative to its parent: the first file in Order
-FilesOf(s) == SelectSeq(Order, LAMBDA p : s[p] \in {"file", "xfile"})
-Touched(s) == IF FilesOf(s) = <<>> THEN <<>> ELSE FilesOf(s)[1]
-Ent(s, p) == IF s[p] = "absent" THEN {}
-             ELSE {[path |-> p,
-                    kind |-> CASE s[p] \in {"file", "xfile"} -> "file" [] s[p] = "symlink" -> "symlink" [] OTHER -> "directory",
-                    val  |-> CASE s[p] \in {"file", "xfile"} -> "c:" \o Tok(p) [] s[p] = "symlink" -> Target(p) [] OTHER -> "",
-                    exec |-> s[p] = "xfile",
-                    rev  |-> IF p = Touched(s) THEN "tip" ELSE "old"]}
-Entries(s) == UNION {Ent(s, p) : p \in P}
+Touched(s) == IF \E i \in 1..8 : s[i] \in {"file", "xfile"} THEN CHOOSE i \in 1..8 : s[i] \in {"file", "xfile"} /\ \A j \in 1..(i - 1) : s[j] \notin {"file", "xfile"}
+              ELSE 0
+Ent(s, i, touched) ==
+    [path |-> Order[i],
+     kind |-> CASE s[i] \in {"file", "xfile"} -> "file" [] s[i] = "symlink" -> "symlink" [] OTHER -> "directory",
+     val  |-> CASE s[i] \in {"file", "xfile"} -> "c:" \o Toks[i] [] s[i] = "symlink" -> Targets[i] [] OTHER -> "",
+     exec |-> s[i] = "xfile",
+     rev  |-> IF i = touched THEN "tip" ELSE "old"]
+Entries(s) == LET touched == Touched(s) IN {Ent(s, i, touched) : i \in {j \in 1..8 : s[j] # "absent"}}
 
 Roots == {[given |-> FALSE, segs |-> <<>>], [given |-> TRUE, segs |-> <<>>], [given |-> TRUE, segs |-> <<"r", "é s">>]}
 Subdirs == {[given |-> FALSE, segs |-> <<>>, slash |-> FALSE], [given |-> TRUE, segs |-> <<>>, slash |-> FALSE],
@@ -58,9 +64,6 @@ Next == /\ c.stage = "tree"
         /\ \/ c' = [c EXCEPT !.stage = "treelaws"]
            \/ \E o \in Opts : c' = [c EXCEPT !.stage = "case", !.o = o]
 
-T == Entries(c.s)
-Sub == SubdirSegs(c.o)
-Sel == Subtree(T, Sub)
 DirPaths(t) == {e.path : e \in {x \in t : x.kind = "directory"}}
 RelPaths == {<<>>} \cup UNION {{SubSeq(p, i, Len(p)) : i \in 1..Len(p)} : p \in P}
 ObsOf(fmt, exp, o) == {[path |-> e.path, kind |-> e.kind, val |-> e.val, exec |-> e.exec, mt |-> MtClass(fmt, e, o)] : e \in exp}
@@ -68,27 +71,36 @@ RootSegs == {x.segs : x \in Roots}
 
 \* the algebra the property relies on: per tree ...
 TreeLaws ==
+    LET T == Entries(c.s) IN
     /\ ValidTree(T)
     /\ Subtree(T, <<>>) = T
-    /\ \A p \in DirPaths(T) : \A q \in RelPaths : Subtree(Subtree(T, p), q) = Subtree(T, p \o q)      \* Subtree composes
+    /\ \A p \in DirPaths(T) : LET tp == Subtree(T, p) IN \A q \in RelPaths : Subtree(tp, q) = Subtree(T, p \o q)   \* Subtree composes
     /\ ZipUnambiguous(Names)
 \* ... and per (tree, options)
 CaseLaws ==
+    LET T == Entries(c.s)
+        Sub == SubdirSegs(c.o)
+        Sel == Subtree(T, Sub) IN
     /\ ValidTree(Sel)
-    /\ \A r \in RootSegs : \A r2 \in {<<>>, <<"z">>} :
-          /\ Prefix(r2, Prefix(r, Sel)) = Prefix(r2 \o r, Sel)                                       \* Prefix composes
-          /\ r # <<>> => Subtree(Prefix(r, Sel), r) = Sel                                            \* Subtree undoes Prefix
-          /\ Cardinality(Prefix(r, Sel)) = Cardinality(Sel)
+    /\ \A r \in RootSegs : LET pr == Prefix(r, Sel) IN
+          /\ Prefix(<<"z">>, pr) = Prefix(<<"z">> \o r, Sel)                                          \* Prefix composes
+          /\ r # <<>> => Subtree(pr, r) = Sel                                                        \* Subtree undoes Prefix
+          /\ Cardinality(pr) = Cardinality(Sel)
     /\ \A e \in Sel : \E x \in T : x.kind = e.kind /\ x.val = e.val /\ x.exec = e.exec /\ x.rev = e.rev
                                   /\ (x.path = Sub \o e.path \/ (x.path = Sub /\ e.path = <<LastSeg(Sub)>>))
     /\ \A x \in T : StrictPrefix(Sub, x.path) => \E e \in Sel : Sub \o e.path = x.path              \* nothing below it is left out
     /\ \A f \in {"dir", "tar", "zip"} :
-          LET exp == Expected(f, T, c.o, Dest) IN
+          LET exp == Expected(f, T, c.o, Dest)
+              obs == ObsOf(f, exp, c.o) IN
           /\ Cardinality(exp) = Cardinality(Sel) /\ Cardinality(PathsOf(exp)) = Cardinality(exp)     \* no collisions
-          /\ FailedLaws(exp, ObsOf(f, exp, c.o)) = {} /\ MtOk(f, exp, ObsOf(f, exp, c.o), c.o)        \* the laws accept the spec
+          /\ FailedLaws(exp, obs) = {} /\ MtOk(f, exp, obs, c.o)                                      \* the laws accept the spec
           /\ Expected(f, T, [c.o EXCEPT !.pft = ~c.o.pft], Dest) = exp                                \* timestamps option: same content
-    /\ \A f \in {"tgz", "tbz2", "txz"} : Expected(f, T, c.o, Dest) = Expected("tar", T, c.o, Dest)   \* compression is transparent
+    /\ LET tar == Expected("tar", T, c.o, Dest) IN
+       \A f \in {"tgz", "tbz2", "txz"} : Expected(f, T, c.o, Dest) = tar                              \* compression is transparent
 LawsHoldOnSpec == (c.stage = "treelaws" => TreeLaws) /\ (c.stage = "case" => CaseLaws)
+T == Entries(c.s)
+Sub == SubdirSegs(c.o)
+Sel == Subtree(T, Sub)
 \* anti-vacuity
 WitnessSingle == ~(c.stage = "case" /\ \E e \in T : e.path = Sub /\ e.kind = "symlink")
 WitnessEmpty == ~(c.stage = "case" /\ c.o.subdir.given /\ Sub # <<>> /\ Sel = {} /\ T # {})
